@@ -156,6 +156,14 @@ def run(tier: str, seed: int, rep: Report, model: Model) -> dict:
                     c = p[0]
             cases.append(c)
             labels.append(("multi_fault", False))
+    # directed: contexts in which a named expression meets a name that is already bound (two demands on one axis),
+    # conforming and with every single-axis resize
+    for base in GC.rebound_cases(rnd, 15 if tier == "quick" else 150):
+        cases.append(base)
+        labels.append(("rebound_conforming", True))
+        for c in GC.all_resizes(base, alts=1):
+            cases.append(c)
+            labels.append(("rebound_resized", True))
     if tier == "thorough":
         ss = small_scope(60000)
         rep.streams["exhaustive_small_scope"] = len(ss)
